@@ -194,9 +194,14 @@ def _enable_jump_budget(budget):
                                  for f in traceback.extract_stack()[:-1]]
                 raise _sched.HangDetected('jump budget')
 
+        def on_start(code, off):
+            # calls count too: runaway recursion has no loop in it
+            return on_jump(code, off, off)
+
         mon.register_callback(TOOL, mon.events.JUMP, on_jump)
+        mon.register_callback(TOOL, mon.events.PY_START, on_start)
         _JUMP_ON = True
-    mon.set_events(TOOL, mon.events.JUMP if budget else 0)
+    mon.set_events(TOOL, (mon.events.JUMP | mon.events.PY_START) if budget else 0)
 
 
 class Result:
@@ -469,6 +474,7 @@ def execute(spec):
     res.stderr = errbuf.getvalue()
     res.sim_time = S.clock
     res.steps = S.steps
+    res.max_step_events = max(S.max_jumps, S.jumps)
     res.switches = S.switches
     res.choices = choices.picks
     res.nthreads = threading.active_count()
